@@ -257,7 +257,7 @@ fn evpn_product() -> Vec<EvpnNlri> {
     let mac = [0x02, 0x00, 0x5e, 0x77, 0x88, 0x99];
     let mut v = Vec::new();
     for (i, host) in [None, Some(ip("10.20.30.41")), Some(ip("2001:db8:20::41"))].into_iter().enumerate() {
-        for label2 in [None, Some(20021u32)] {
+        for label2 in [None, Some(0u32), Some(20021u32)] {
             for e in [Esi::ZERO, esi(7)] {
                 v.push(EvpnNlri::MacIpAdvertisement(MacIpAdvertisement {
                     rd: rd_as2(),
@@ -611,6 +611,27 @@ pub fn nlri_samples(family: Family) -> Vec<Nlri> {
                 rd: rd_as2(),
                 prefix: net4("0.0.0.0", 0),
             }),
+            // route distinguishers with every field at its largest value, labels 0 and 2^20-1
+            Nlri::VpnV4(VpnV4Nlri {
+                labels: labels(&[0]),
+                rd: RouteDistinguisher::FourOctetAs { admin: u32::MAX, assigned: u16::MAX },
+                prefix: net4("198.51.100.0", 24),
+            }),
+            Nlri::VpnV4(VpnV4Nlri {
+                labels: labels(&[1_048_575]),
+                rd: RouteDistinguisher::TwoOctetAs { admin: u16::MAX, assigned: u32::MAX },
+                prefix: net4("198.51.100.0", 25),
+            }),
+            Nlri::VpnV4(VpnV4Nlri {
+                labels: labels(&[16]),
+                rd: RouteDistinguisher::Ipv4 { admin: v4("255.255.255.255"), assigned: u16::MAX },
+                prefix: net4("198.51.100.128", 26),
+            }),
+            Nlri::VpnV4(VpnV4Nlri {
+                labels: labels(&[17]),
+                rd: RouteDistinguisher::TwoOctetAs { admin: 0, assigned: 0 },
+                prefix: net4("198.51.100.192", 27),
+            }),
         ],
         Family::IPV6_VPN => vec![
             Nlri::VpnV6(VpnV6Nlri {
@@ -719,6 +740,11 @@ pub fn nexthop_v4() -> Nexthop {
 /// An IPv6 global next hop (2001:db8::fe).
 pub fn nexthop_v6() -> Nexthop {
     Nexthop::V6(v6("2001:db8::fe"))
+}
+
+/// the 32-octet form of an IPv6 next hop: global address plus link-local address (RFC 2545 3)
+pub fn nexthop_v6ll() -> Nexthop {
+    Nexthop::V6LinkLocal(v6("2001:db8::fe"), v6("fe80::fe"))
 }
 
 /// A next hop for an announcement of `family` that survives encode/decode unchanged; `None` for the
